@@ -14,6 +14,7 @@ TLCW = os.path.join(VERIF, "bin", "tlcw")
 # seed -> (list of (family, count), set of rules that count as "caught", optional substring the info must contain)
 TABLE = {
     "C01": ([("bpReset", 150)], {"C01.data", "C01.clean_end", "C01.trailers"}, None),
+    "C01b": ([("mixA", 250), ("mixAd", 250)], {"C09.data_budget", "C06.progress"}, None),
     "C02": ([("mixA", 250), ("flowBc", 200)], {"C02.stream_credit", "C02.conn_credit"}, None),
     "C02b": ([("mixA", 250), ("mixAd", 250)], {"C02.stream_credit"}, None),
     "C03": ([("flowBs", 200)], {"C03.stream_leak", "C03.conn_leak"}, None),
@@ -27,6 +28,7 @@ TABLE = {
     "C07": ([("goawayBc", 200)], {"C07.resolved"}, None),
     "C07b": ([("goawayBc", 200)], {"C07.resolved"}, None),
     "C08": ([("floodBs", 50)], {"C08.panic"}, None),
+    "C08b": ([("mixA", 250), ("faultA", 320), ("mutateB", 600)], {"C08.panic"}, None),
     "C09": ([("abuseB", 400)], {"C09.legal_not_penalised"}, "GOAWAY"),
     "C09b": ([("pushRaceBs", 150)], {"C09.legal_not_penalised"}, "GOAWAY"),
     "C09c": ([("pushRaceBc", 150)], {"C09.legal_not_penalised"}, "GOAWAY"),
@@ -43,6 +45,7 @@ TABLE = {
     "C19": ([("mixA", 250)], {"C19.slab_idle"}, "unlinked_record_kept_for_no_reason"),
     "C19b": ([("cancelA", 300)], {"C16.pool", "C19.flow_idle", "C06.progress"}, None),
     "C20": ([("inlineA", 300)], {"C19.idle_close", "C20.deadlock"}, None),
+    "C20b": ([("pingsA", 150)], {"C06.ping_written"}, None),
 }
 ENGINES = {"C10": ("HPACK_HARNESS", "hpack"), "C11": ("HPACK_HARNESS", "hpack"), "C12": ("C12_CODEC", "codec"), "C13": ("C13_BIN", "")}
 
@@ -61,6 +64,23 @@ def validate(trace, out):
         print(r.stdout[-1500:])
         return None
     return json.load(open(out))
+
+
+KNOWN = json.load(open(os.path.join(VERIF, "known_findings.json")))["findings"]
+
+
+def is_known(v):
+    """a violation that a known finding covers (same rule + discriminating info) is not a detection of the seed"""
+    for k in KNOWN:
+        if k["rule"] != v["rule"]:
+            continue
+        m = k.get("match", {})
+        if "info" in m and json.dumps(v.get("info")) != json.dumps(m["info"]):
+            continue
+        if "info_contains" in m and m["info_contains"] not in json.dumps(v.get("info")):
+            continue
+        return True
+    return False
 
 
 def main():
@@ -134,6 +154,8 @@ def main():
                         detail += "TLC failed on %s; " % fam
                         continue
                     for x in v["viols"]:
+                        if is_known(x["v"]):
+                            continue
                         if "--all" in sys.argv:
                             allr[(fam, x["v"]["rule"], json.dumps(x["v"].get("info"))[:90])] += 1
                         if x["v"]["rule"] in rules and (sub is None or sub in json.dumps(x["v"].get("info"))):
